@@ -153,7 +153,7 @@ class RemoteState(dict):
                 patched_state = state.copy()
                 patched_state.update(RemoteState.current_patches())
             elif RemoteState.current_patches():
-                raise TypeError('State should be dict in order to be patched, not {!r}, while patching remote state of an object with type {!r} with patching context: {}'.format(type(state).__name__, type(ret).__name__, RemoteState._active_contexts.ctxs[-1]))
+                raise TypeError('State should be dict in order to be patched, not {!r}, while patching remote state of an object with type {!r} with patching context: {}'.format(type(state).__name__, type(ret).__name__, RemoteState.current_patches()))
             else:
                 patched_state = state
             del obj.__setstate__
